@@ -69,6 +69,7 @@ type Exec struct {
 	notes     []string
 	usedSpecs map[string]bool
 	replay    *ReplayInfo
+	curCall   *ssa.CallCommon
 }
 
 func newExec(p *Program, fn *ssa.Function, fs *FuncSpec) *Exec {
@@ -203,6 +204,31 @@ func (x *Exec) verify() (err error) {
 		fr.regs[p] = v
 		vars[p.Name()] = v
 		x.replay.Params = append(x.replay.Params, ReplayParam{Name: p.Name(), Type: p.Type(), Val: v})
+	}
+	// parameters do not point at package-level variables or function objects
+	// (their ids are below 10000); stated as an input assumption
+	for _, p := range fn.Params {
+		for i, l := range leavesOf(p.Type()) {
+			if l.Kind == LkRef || l.Kind == LkPayload || l.Kind == LkSlArr {
+				if _, isFn := l.T.Underlying().(*types.Signature); isFn {
+					continue
+				}
+				r := fr.regs[p].L[i]
+				st.assume(tOr(tIsNil(r), "(>= "+tRid(r)+" 10000)"))
+			}
+		}
+	}
+	// Go's type safety: pointers to objects of unrelated types never alias
+	for i, p := range fn.Params {
+		for j := i + 1; j < len(fn.Params); j++ {
+			q := fn.Params[j]
+			pt, ok1 := p.Type().Underlying().(*types.Pointer)
+			qt, ok2 := q.Type().Underlying().(*types.Pointer)
+			if ok1 && ok2 && !mayOverlap(pt.Elem(), qt.Elem()) {
+				a, b := fr.regs[p].L[0], fr.regs[q].L[0]
+				st.assume(tOr(tIsNil(a), tIsNil(b), tNot(tEq(tRid(a), tRid(b)))))
+			}
+		}
 	}
 	for _, fv := range fn.FreeVars {
 		v := st.freshVal("fv_"+sanitize(fv.Name()), fv.Type())
@@ -534,6 +560,7 @@ func (x *Exec) havocLoop(st *State, fr *Frame, li *loopInfo) {
 			sorts = append(sorts, s)
 		}
 		sort.Strings(sorts)
+		st.prepareAlloc()
 		for _, s := range sorts {
 			st.havocHeap(s, keepFor(s))
 		}
@@ -1133,6 +1160,15 @@ func (x *Exec) lookup(st *State, in *ssa.Lookup) {
 	x.lockCheck(st, m.L[0], mt, describe(in.X), in.Pos(), false)
 	okT, v := st.mapLookupIn(nil, m, k)
 	st.assumeWF(v)
+	if u, ok := in.X.(*ssa.UnOp); ok {
+		if g, ok := u.X.(*ssa.Global); ok {
+			if inv := x.prog.spec.MapInvs[g.Name()]; inv != nil {
+				env := &Env{x: x, st: st, old: x.entry, vars: map[string]Val{"v": v, "k": k}, what: "mapinv " + g.Name()}
+				st.assume(tImp(okT, env.evalBool(inv.Expr)))
+				x.usedSpecs["mapinv "+g.Name()] = true
+			}
+		}
+	}
 	if in.CommaOk {
 		x.setReg(st, in, Val{T: in.Type(), L: append(append([]Term(nil), v.L...), okT)})
 	} else {
@@ -1222,12 +1258,18 @@ func (x *Exec) checkPost(st *State, res Val, pos token.Pos) {
 	env := &Env{x: x, st: st, old: x.entry, vars: vars}
 	for k, c := range x.spec.Ens {
 		env.what = fmt.Sprintf("%s ensures (%s:%d)", x.fname, shortFile(c.File), c.Line)
-		g := env.evalBool(c.Expr)
 		d := fmt.Sprint(k)
 		if c.Label != "" {
 			d = c.Label
 		}
-		x.oblige(st, "post", d, g, x.propsFor(c), c.Text, pos)
+		parts := x.splitConj(c.Expr, 0)
+		if len(parts) == 1 {
+			x.oblige(st, "post", d, env.evalBool(c.Expr), x.propsFor(c), c.Text, pos)
+			continue
+		}
+		for j, pe := range parts {
+			x.oblige(st, "post", fmt.Sprintf("%s.%d", d, j), env.evalBool(pe), x.propsFor(c), c.Text+"  [conjunct: "+exprString(pe)+"]", pos)
+		}
 	}
 	if len(st.held) > 0 {
 		var hs []string
@@ -1257,4 +1299,129 @@ func (x *Exec) panicInstr(st *State, in *ssa.Panic) {
 	}
 	x.oblige(st, "panic", "", goal, x.spec.Props, "explicit panic is unreachable (or permitted by panics only-if)", in.Pos())
 	x.endPath()
+}
+
+
+// mayOverlap: can an object of type a share memory with an object of type b?
+// Only if one (transitively) contains the other as a field or element.
+func mayOverlap(a, b types.Type) bool {
+	return containsType(a, b, 0) || containsType(b, a, 0)
+}
+
+func containsType(outer, inner types.Type, depth int) bool {
+	if types.Identical(outer, inner) {
+		return true
+	}
+	if depth > 6 {
+		return true
+	}
+	switch u := outer.Underlying().(type) {
+	case *types.Struct:
+		for i := 0; i < u.NumFields(); i++ {
+			if containsType(u.Field(i).Type(), inner, depth+1) {
+				return true
+			}
+		}
+	case *types.Array:
+		return containsType(u.Elem(), inner, depth+1)
+	}
+	return false
+}
+
+
+// splitConj splits a clause into conjuncts: A && B, P ==> (A && B), and calls
+// of non-recursive spec fns whose body is a conjunction (parameters
+// substituted syntactically). Each conjunct becomes its own obligation, so a
+// failure names the part of the contract that is violated.
+func (x *Exec) splitConj(e ast.Expr, depth int) []ast.Expr {
+	switch e := e.(type) {
+	case *ast.ParenExpr:
+		return x.splitConj(e.X, depth)
+	case *ast.BinaryExpr:
+		if e.Op == token.LAND {
+			return append(x.splitConj(e.X, depth), x.splitConj(e.Y, depth)...)
+		}
+	case *ast.CallExpr:
+		id, ok := e.Fun.(*ast.Ident)
+		if !ok {
+			break
+		}
+		if id.Name == "imp_" && len(e.Args) == 2 {
+			var out []ast.Expr
+			for _, c := range x.splitConj(e.Args[1], depth) {
+				out = append(out, &ast.CallExpr{Fun: id, Args: []ast.Expr{e.Args[0], c}})
+			}
+			return out
+		}
+		if sf, ok := x.prog.spec.SpecFns[id.Name]; ok && !sf.Rec && !sf.Uninterp && depth < 3 && len(sf.Params) == len(e.Args) {
+			// only when arguments are simple (identifiers / selectors): substitution is then safe
+			simple := true
+			for _, a := range e.Args {
+				if !isSimpleArg(a) {
+					simple = false
+				}
+			}
+			if simple {
+				sub := map[string]ast.Expr{}
+				for i, p := range sf.Params {
+					sub[p.Name] = e.Args[i]
+				}
+				body := substIdents(sf.Body.Expr, sub)
+				parts := x.splitConj(body, depth+1)
+				if len(parts) > 1 {
+					return parts
+				}
+			}
+		}
+	}
+	return []ast.Expr{e}
+}
+
+func isSimpleArg(e ast.Expr) bool {
+	switch e := e.(type) {
+	case *ast.Ident:
+		return true
+	case *ast.SelectorExpr:
+		return isSimpleArg(e.X)
+	case *ast.UnaryExpr:
+		return e.Op == token.AND && isSimpleArg(e.X)
+	case *ast.StarExpr:
+		return isSimpleArg(e.X)
+	case *ast.ParenExpr:
+		return isSimpleArg(e.X)
+	}
+	return false
+}
+
+func substIdents(e ast.Expr, sub map[string]ast.Expr) ast.Expr {
+	switch e := e.(type) {
+	case *ast.Ident:
+		if r, ok := sub[e.Name]; ok {
+			return &ast.ParenExpr{X: r}
+		}
+		return e
+	case *ast.ParenExpr:
+		return &ast.ParenExpr{X: substIdents(e.X, sub)}
+	case *ast.SelectorExpr:
+		return &ast.SelectorExpr{X: substIdents(e.X, sub), Sel: e.Sel}
+	case *ast.StarExpr:
+		return &ast.StarExpr{X: substIdents(e.X, sub)}
+	case *ast.UnaryExpr:
+		return &ast.UnaryExpr{Op: e.Op, X: substIdents(e.X, sub)}
+	case *ast.BinaryExpr:
+		return &ast.BinaryExpr{X: substIdents(e.X, sub), Op: e.Op, Y: substIdents(e.Y, sub)}
+	case *ast.CallExpr:
+		args := make([]ast.Expr, len(e.Args))
+		for i, a := range e.Args {
+			args[i] = substIdents(a, sub)
+		}
+		return &ast.CallExpr{Fun: e.Fun, Args: args}
+	case *ast.IndexExpr:
+		return &ast.IndexExpr{X: substIdents(e.X, sub), Index: substIdents(e.Index, sub)}
+	case *ast.TypeAssertExpr:
+		return &ast.TypeAssertExpr{X: substIdents(e.X, sub), Type: e.Type}
+	case *ast.CompositeLit:
+		return e
+	}
+	return e
 }
